@@ -115,12 +115,13 @@ func c06(tier string) {
 	ctx.ForEach(n, func(i int) {
 		r := lib.CaseRand(ctx.Seed, 6, i)
 		pr := &pair{}
+		kind := r.Intn(16) // drawn per case: every worker (cases i = k mod 16) sees every kind
 		switch {
-		case i%4 == 3 && len(fx.Profiles) > 0:
+		case kind%4 == 3 && len(fx.Profiles) > 0:
 			pr.p, pr.d, pr.label = fx.Profiles[r.Intn(len(fx.Profiles))], fx.Data[r.Intn(len(fx.Data))], "fixture"
-		case i%16 == 2:
+		case kind == 2:
 			pr.p, pr.d, pr.label = c17GoodProfile, twoSourceInfos(), "two-source-infos"
-		case i%8 == 5:
+		case kind%8 == 5:
 			// a profile that re-binds built-in prefixes: must not influence what other profiles mean afterwards
 			prof, g := c06Profile(r, i)
 			for _, b := range []string{"core", "apiContract", "shapes", "doc", "security", "data", "shacl", "raml-shapes", "apiExt", "meta"} {
